@@ -8,6 +8,7 @@ from .. import gen, monitors
 
 PID = "C07"
 ANCHORS = ["scores.py:Scores.auc"]
+RAISES_ARE_VIOLATIONS = True
 DECIDING = {"M-auc": 6000, "R-auc": 2000}
 THOROUGH_EXTRA = ["W2"]
 RULE = (
